@@ -2,8 +2,12 @@ package main
 
 import (
 	"bytes"
+	"encoding/hex"
 	"fmt"
 	"github.com/yuin/goldmark/ast"
+	"os"
+	"os/exec"
+	"strings"
 
 	"github.com/yuin/goldmark/text"
 )
@@ -22,9 +26,22 @@ var c06Stateful = []string{
 	"\ufeff# Title\n", "\ufefftext\n", "# h {#custom}\n\n# h\n", "![i][foo]\n\n[foo]: /img\n", "<div>\nraw\n</div>\n", "*a **b** c*\n", "> q\n> r\n", "1. x\n2. y\n",
 }
 
+func c06BaselineDocs() [][]byte {
+	var out [][]byte
+	for _, a := range c06Stateful {
+		out = append(out, []byte(a))
+	}
+	for _, a := range c06Stateful {
+		for _, b := range c06Stateful {
+			out = append(out, []byte(a+b))
+		}
+	}
+	return out
+}
+
 func runC06(c *Ctx) {
 	c.Rep.Rule = "a case is (configuration, history of earlier documents, document): the long-used instance's output must equal a fresh instance's, Convert must equal Parse+Render, and re-rendering a tree must give the same bytes and leave the tree unchanged; distinct by hash; non-trivial = the history has >= 2 calls and a document with references, ids, footnotes, quotes or tables"
-	cfgs := []Cfg{{Ext: "core"}, {Ext: "gfm"}, {Ext: "all", AutoID: true, Attr: true}, {Ext: "all", Unsafe: true, XHTML: true}, {Ext: "typo"}, {Ext: "footnote", AutoID: true}, {Ext: "table", TableAlign: 2}, {Ext: "table", TableAlign: 1}, {Ext: "gfm", XHTML: true}, {Ext: "cjk"}}
+	cfgs := []Cfg{{Ext: "core"}, {Ext: "gfm"}, {Ext: "all", AutoID: true, Attr: true}, {Ext: "all", Unsafe: true, XHTML: true}, {Ext: "typo"}, {Ext: "footnote", AutoID: true}, {Ext: "table", TableAlign: 2}, {Ext: "table", TableAlign: 1}, {Ext: "gfm", XHTML: true}, {Ext: "cjk"}, {Ext: "footnote", FnPrefix: "article1-"}, {Ext: "gfm+footnote", FnPrefix: "p-", FnPrefixFunc: true}}
 	nHist := 250
 	histLen := 12
 	if !c.Quick() {
@@ -35,6 +52,47 @@ func runC06(c *Ctx) {
 	// of the same document, on a used or a fresh instance, may differ from it (state kept in
 	// package-level variables is shared by fresh instances too)
 	firstOut := map[string][]byte{}
+	// baseline from fresh processes: one child process per configuration converts every stateful
+	// document (and every ordered pair of two) once, each on a fresh instance, before this
+	// process has used any other configuration
+	if idx := os.Getenv("GMH_C06_CHILD"); idx != "" {
+		var k int
+		fmt.Sscan(idx, &k)
+		cf := cfgs[k]
+		var sb strings.Builder
+		for _, d := range c06BaselineDocs() {
+			o, e, p := convertSafe(cf.Build(), d)
+			if e != "" || p != "" {
+				continue
+			}
+			sb.WriteString(hex.EncodeToString(d) + " " + hex.EncodeToString(o) + "\n")
+		}
+		os.WriteFile(c.OutDir+"/baseline.txt", []byte(sb.String()), 0o644)
+		return
+	}
+	self, _ := os.Executable()
+	for k, cf := range cfgs {
+		dir := fmt.Sprintf("%s/child%d", c.OutDir, k)
+		cmd := exec.Command(self, "run", "C06", "--tier", c.Tier, "--seed", fmt.Sprint(c.Seed), "--out", dir)
+		cmd.Env = append(os.Environ(), fmt.Sprintf("GMH_C06_CHILD=%d", k))
+		if out, err := cmd.CombinedOutput(); err != nil {
+			panic(fmt.Sprintf("C06 baseline child %d: %v %s", k, err, out))
+		}
+		b, _ := os.ReadFile(dir + "/baseline.txt")
+		for _, ln := range strings.Split(string(b), "\n") {
+			f := strings.Fields(ln + " ")
+			if len(f) == 0 {
+				continue
+			}
+			d, _ := hex.DecodeString(f[0])
+			var o []byte
+			if len(f) > 1 {
+				o, _ = hex.DecodeString(f[1])
+			}
+			firstOut[cf.Name()+"\x00"+string(d)] = o
+		}
+		c.Rep.Streams["fresh-process-baselines"]++
+	}
 	pick := func() []byte {
 		switch c.R.Intn(6) {
 		case 4:
@@ -51,8 +109,11 @@ func runC06(c *Ctx) {
 			return append([]byte(c.R.PickS(c06Stateful)), []byte(c.R.PickS(c06Stateful))...)
 		}
 	}
-	for _, cf := range cfgs {
-		for h := 0; h < nHist; h++ {
+	// histories of the different configurations are interleaved: state shared between instances
+	// of different configurations (package-level variables, shared parser or renderer objects)
+	// shows as a difference from the first output of the process
+	for h := 0; h < nHist; h++ {
+		for _, cf := range cfgs {
 			used := cf.Build()
 			var history []string
 			// a tree parsed earlier stays valid: it is rendered again after later calls
